@@ -33,7 +33,9 @@ package updog
 //@   && c.curSize == sum(c.lruList.members, costmap())
 //@   && (forall e *list.Element :: (e in c.lruList.members) ==> 0 <= costmap()[e] && costmap()[e] <= sum(c.lruList.members, costmap()))
 
-//@ func [C07] (*LRUCache).Get(c, key) (bm, found)
+//@ guarded [C04] LRUCache.entries,lruList,curSize by mtx exclusive
+
+//@ func [C07,C04,C03] (*LRUCache).Get(c, key) (bm, found) inherits Cache.Get
 //@   requires LRUInv(c)
 //@   modifies c.lruList.stamp; c.lruList.clock; c.metrics.GetCall.count; c.metrics.CacheHit.count; c.metrics.CacheMiss.count
 //@   ensures [C07] inv: LRUInv(c)
@@ -52,9 +54,9 @@ package updog
 //@ axiom sizemap_def: forall e *list.Element :: sizemap()[e] == item(e).size
 //@ pure oldcost(c *LRUCache, key uint64) int := (key in c.entries) ? costmap()[c.entries[key]] : 0
 
-//@ func [C07] (*LRUCache).Put(c, key, bm)
+//@ func [C07,C04,C03] (*LRUCache).Put(c, key, bm) inherits Cache.Put
 //@   requires LRUInv(c) && bm != nil
-//@   requires nowrap: c.curSize + newcost(bm) <= 18446744073709551615
+//@   assumes nowrap: c.curSize + newcost(bm) <= 18446744073709551615
 //@   modifies c.entries[*]; c.curSize; c.lruList.members; c.lruList.stamp; c.lruList.clock; c.metrics.PutCall.count
 //@   modifies heap lruCacheItem.bm at ((key in c.entries) ? item(c.entries[key]) : nil)
 //@   modifies heap lruCacheItem.size at ((key in c.entries) ? item(c.entries[key]) : nil)
